@@ -22,7 +22,7 @@ KW = {"tx_kind": "full", "rx_kind": "full"}
 def _base(rng, **over):
     rate = rng.choice([1, 2, 250])
     crc = rng.choice([0, 1, 2, 2])
-    c = {"drain": rng.choice(["avail", "avail", "blind"]),
+    c = {"drain": rng.choice(["avail", "avail", "blind"]), "junk_first": rng.random() < 0.2,
          "pl_style": rng.choice(["all", "all", "list", "asc", "desc"]),
          "pl_other": [rng.randrange(1, 33) for _ in range(6)],
          "channel": rng.randrange(126), "rate": rate, "aw": rng.choice([3, 4, 5]), "crc": crc,
@@ -169,6 +169,18 @@ def _run_single(ctx, case, pair, prefix):
     bufs = _mk_bufs(case)
     copies = [bytes(b) for b in bufs]
     ids = [id(b) for b in bufs]
+    if case.get("junk_first") and case["static"] is None and case.get("rx_kind", "full") == "full":
+        # an earlier payload of another length that the receiver sized up with any() and then threw
+        # away with flush_rx() instead of reading it
+        jl = (len(bufs[0]) % 31) + 1 if bufs else 7
+        if bufs and jl == len(bufs[0]):
+            jl = jl % 31 + 1
+        tx.send(b"J" * jl, ask_no_ack=case["ask_no_ack"])
+        pair.rig.node.idle(2 * W.MS)
+        if rx.available():
+            rx.any()
+            rx.flush_rx()
+        ctx.count("junk_sized_up_and_flushed")
     rt.ops.clear()
     del rt.san[:]
     air0 = len(pair.rig.air.log)
